@@ -88,6 +88,10 @@ func doOp(c *channel.Channel, t, k int, op string) (ev Event) {
 		return Event{t, "R", "closed"}
 	case "is":
 		return Event{t, "R", "is", c.IsClosed()}
+	case "len":
+		return Event{t, "R", "num", c.Len()}
+	case "cap":
+		return Event{t, "R", "num", c.Cap()}
 	}
 	return Event{t, "P", "unknown op " + op}
 }
@@ -434,6 +438,7 @@ func runChild() {
 			rep = 1
 		}
 		var runs [][][]Event
+		hung := 0
 		for r := 0; r < rep; r++ {
 			ch := newChannel(c.Cap)
 			n := len(c.Threads)
@@ -457,13 +462,15 @@ func runChild() {
 			select {
 			case <-fin:
 				runs = append(runs, res)
-			case <-time.After(3 * time.Second):
-				// deadlock by construction of the case (e.g. more receives than values and no close): skip
+			case <-time.After(5 * time.Second):
+				// every stress program terminates by construction (a closer, and consumers that receive more often
+				// than producers send): a run that does not finish is a hang of the implementation -> reported
+				hung++
 				runs = append(runs, nil)
 				go func() { defer func() { recover() }(); ch.Close() }()
 			}
 		}
-		out.Encode(map[string]any{"runs": runs})
+		out.Encode(map[string]any{"runs": runs, "hung": hung})
 	}
 }
 
@@ -509,6 +516,7 @@ func runStress() {
 		var parsed map[string]any
 		if json.Unmarshal(so.Bytes(), &parsed) == nil {
 			o["runs"] = parsed["runs"]
+			o["hung"] = parsed["hung"]
 		}
 		out.Encode(o)
 	})
